@@ -187,7 +187,7 @@ func (tr *trans) havocAll(st State) {
 			tr.vc.assume(app(">=", n, old))
 			continue
 		}
-		if strings.HasPrefix(name, "call.") || strings.HasPrefix(name, "lock.") || strings.HasPrefix(name, "L.") || strings.HasPrefix(name, "iter.") || strings.HasPrefix(name, "defer.") {
+		if strings.HasPrefix(name, "call.") || strings.HasPrefix(name, "lock.") || strings.HasPrefix(name, "recv.") || strings.HasPrefix(name, "L.") || strings.HasPrefix(name, "iter.") || strings.HasPrefix(name, "defer.") {
 			continue
 		}
 		tr.havocState(st, name)
@@ -887,6 +887,12 @@ func (tr *trans) run() {
 		}
 	}
 	tr.vc.assume(app(">", tr.getState(tr.entry, "$next"), "0"))
+	for _, k := range sortedKeys(tr.known) {
+		if strings.HasPrefix(k, "recv.") && strings.HasSuffix(k, ".n") {
+			// the ghost receive history of a channel starts empty at function entry
+			tr.vc.assume(eq(tr.getState(tr.entry, k), "0"))
+		}
+	}
 	st := tr.entry.clone()
 	// parameters
 	for _, p := range fn.Params {
